@@ -72,7 +72,8 @@ def _replay(name, law):
             "inverse_vs": "bad = not (same(g('Very')(g('Somewhat')(x)), x, 1e-7) and same(g('Somewhat')(g('Very')(x)), x, 1e-7))",
             "inverse_es": "bad = not (same(g('Extremely')(g('Seldom')(x)), x, 1e-7) and same(g('Seldom')(g('Extremely')(x)), x, 1e-7))",
             "involution": "bad = not same(g('Not')(g('Not')(x)), x, 1e-9)",
-            "F": "bad = not same(f(x), spec(x), 0.0) if x in (0.0, 0.5, 1.0) else not same(f(x), spec(x), 1e-12)",
+            "F": "rel = lambda a, b: a == b or abs(a - b) <= 1e-12 * max(abs(a), abs(b))      # relative: a tiny degree is not allowed to vanish\n"
+                 "bad = not same(f(x), spec(x), 0.0) if x in (0.0, 0.5, 1.0) else not rel(f(x), spec(x))",
         }[law]
         lines.append(chk)
         lines.append(f"verdict(bad, '{name}.{law} x=%r x2=%r -> %r' % (x, x2, f(x)))")
@@ -258,6 +259,39 @@ def _ob_f(name):
     return run
 
 
+def _ob_f_exact(name):
+    """Mode F with exact fp.mul / fp.sqrt: for EVERY double in [0,1] (the subnormals and the doubles next to 0 and 1 included) the
+    hedge is the documented formula evaluated in IEEE arithmetic in the documented order.  An algebraically equal form that loses
+    small degrees (0.5 - |x - 0.5| absorbs every x below 2^-54) differs here; a replay decides with a relative tolerance, so a form
+    that merely rounds differently is reported as an unreproduced candidate, not as a violation"""
+
+    def run(ob):
+        fl = install()
+        set_mode("F", fexact=True)
+        ob.query_timeout_ms = 120000 if ob.tier == "quick" else 900000
+        Hd = _hedge(fl, name)
+        x = core.var("x")
+        pre = [unit(x)]
+        rp = _replay(name, "F")
+        R = z3.RNE()
+        fv = core.fv
+        X = x.f
+        one_minus = z3.fpSub(R, fv(1.0), X)
+        sq = lambda t: z3.fpMul(R, t, t)      # noqa: E731
+        want = {"any": fv(1.0), "not": one_minus, "very": sq(X), "somewhat": z3.fpSqrt(R, X),
+                "extremely": z3.If(z3.fpLEQ(X, fv(0.5)), z3.fpMul(R, fv(2.0), sq(X)), z3.fpSub(R, fv(1.0), z3.fpMul(R, fv(2.0), sq(one_minus)))),
+                "seldom": z3.If(z3.fpLEQ(X, fv(0.5)), z3.fpSqrt(R, z3.fpMul(R, fv(0.5), X)), z3.fpSub(R, fv(1.0), z3.fpSqrt(R, z3.fpMul(R, fv(0.5), one_minus))))}[name]
+        for p in ob.paths(pre, lambda: Hd.hedge(x)):
+            if p.exc is not None:
+                ob.unexpected(pre, p, f"{name}/F/formula-exact", {"x": x}, rp)
+                continue
+            if ob.reachable(pre, p) is None:
+                continue
+            ob.prove(pre, p, z3.fpEQ(tf(p.result).f, want), f"{name}/F/formula-exact", {"x": x}, rp)
+
+    return run
+
+
 def _obligations(tier, seed):
     obs = []
     for name in SPEC:
@@ -267,6 +301,7 @@ def _obligations(tier, seed):
         obs.append((f"relations/R/{law}", _ob_rel(law)))
     for name in SPEC:
         obs.append((f"{name}/F/range", _ob_f(name)))
+        obs.append((f"{name}/F/formula-exact", _ob_f_exact(name)))
     return obs
 
 
